@@ -564,9 +564,15 @@ pub fn item(cfg: StreamCfg) -> BoxedStrategy<Item> {
             2,
             raw(
                 "truncated",
-                (any_sequence(cfg), any::<prop::sample::Index>()).prop_map(|(s, ix)| {
-                    let k = 1 + ix.index(s.len().max(2) - 1);
-                    s[..k.min(s.len())].to_vec()
+                (any_sequence(cfg), any::<prop::sample::Index>()).prop_map(move |(s, ix)| {
+                    let mut k = (1 + ix.index(s.len().max(2) - 1)).min(s.len());
+                    if cfg.utf8_only {
+                        // keep the stream valid UTF-8: cut at a character boundary
+                        while k > 1 && k < s.len() && (0x80..=0xbf).contains(&s[k]) {
+                            k -= 1;
+                        }
+                    }
+                    s[..k].to_vec()
                 }),
             ),
         ));
@@ -581,8 +587,12 @@ pub fn item(cfg: StreamCfg) -> BoxedStrategy<Item> {
                     select(vec![0x09u8, 0x0a, 0x0d, 0x0c, 0x00, 0x07, 0x08, 0x7f, 0x1b, 0x18]),
                 )
                     .prop_map(|(mut s, ix, c)| {
-                        let k = 1 + ix.index(s.len().max(2) - 1);
-                        s.insert(k.min(s.len()), c);
+                        let mut k = (1 + ix.index(s.len().max(2) - 1)).min(s.len());
+                        // never split a multi-byte character
+                        while k > 1 && k < s.len() && (0x80..=0xbf).contains(&s[k]) {
+                            k -= 1;
+                        }
+                        s.insert(k, c);
                         s
                     }),
             ),
